@@ -57,7 +57,7 @@ func init() {
 				}
 			}
 			if tier == "thorough" {
-				for k := 1; k <= 20; k++ {
+				for k := 1; k <= 120; k++ {
 					for a := 0; a < 3; a++ {
 						cs = append(cs, ev.MkCase("batch", c02Batch{Auth: a, What: "flips", KG: k%2 == 0, Seed: seed + int64(k)*7717}))
 						cs = append(cs, ev.MkCase("batch", c02Batch{Auth: a, What: "creds", KG: k%2 == 0, Seed: seed + int64(k)*7717}))
